@@ -19,6 +19,7 @@ from .. import core, qtypes
 from .c16 import conv_case
 
 INTERM = "quantized_bits(8, 0, 1)"     # config_public default_interm_quantizer after cfg.update
+PO2_MAX_VALUES = [1.5, 3.0, 5.0, 6.0]  # non-power-of-two po2 max_value: frac(log2) >= 1/2 (1.5, 3, 6) and < 1/2 (5)
 
 
 # --------------------------------------------------------------------------- quantizer specs
@@ -74,8 +75,13 @@ def weight_specs(rng, want):
     return ("binary", dict(alpha=1))
   if want == "po2":
     return ("quantized_po2", dict(bits=int(rng.choice([3, 4]))))
-  if want == "auto_po2":
+  if want in ("auto_po2", "auto_po2_small", "auto_po2_large"):
+    # _small / _large: every per-channel po2 scale far below / far above 1 (see raw_weights)
     return qb(int(rng.choice([3, 4])), 0, symmetric=1, alpha=None)
+  if want == "po2_mv":
+    # max_value that is not a power of two: log2 with fractional part below (5) and above (1.5, 3, 6) one half —
+    # the real quantizer ROUNDS log2(max_value), qtools' get_exp takes the ceiling
+    return ("quantized_po2", dict(bits=int(rng.choice([3, 4])), max_value=float(rng.choice(PO2_MAX_VALUES))))
   if want == "ternary_auto":
     return ("ternary", dict())
   if want == "binary_auto":
@@ -103,6 +109,10 @@ def act_specs(rng, want):
     return ("quantized_po2", dict(bits=3))
   if want == "po2_mv1":
     return ("quantized_po2", dict(bits=3, max_value=1))
+  if want == "po2_mv":
+    return ("quantized_po2", dict(bits=int(rng.choice([3, 4])), max_value=float(rng.choice(PO2_MAX_VALUES))))
+  if want == "relu_po2_mv":
+    return ("quantized_relu_po2", dict(bits=int(rng.choice([3, 4])), max_value=float(rng.choice(PO2_MAX_VALUES))))
   if want == "tanh":
     return ("quantized_tanh", dict(bits=int(rng.choice([3, 4]))))
   if want == "ulaw":
@@ -121,6 +131,14 @@ def bias_specs(rng, want):
     return qb(int(rng.choice([3, 4])), int(rng.choice([0, 1])), symmetric=int(rng.integers(0, 2)), alpha=None)
   if want == "fixed40":
     return qb(4, 0, symmetric=0, alpha=None)
+  if want == "wide_int":
+    # more integer bits than a kernel accumulator scaled down by a small po2 scale
+    b, i = [(8, 5), (7, 4), (6, 3)][int(rng.integers(0, 3))]
+    return qb(b, i, symmetric=int(rng.integers(0, 2)), alpha=None)
+  if want == "wide_frac":
+    # more fraction bits than a kernel accumulator scaled up by a large po2 scale
+    b, i = [(8, 1), (7, 0), (6, 0)][int(rng.integers(0, 3))]
+    return qb(b, i, symmetric=int(rng.integers(0, 2)), alpha=None)
   if want == "po2":
     return ("quantized_po2", dict(bits=3))
   raise ValueError(want)
@@ -174,6 +192,27 @@ def gen_specs(rng, tier):
                     layers=[dict(w="auto_po2", b="fixed", act=None, act_mode=None, dm=2)]))
   specs.append(dict(stream="dw_auto_dm1", family="depthwise", pre="relu",
                     layers=[dict(w="auto_po2", b="fixed", act=None, act_mode=None, dm=1)]))
+  # auto_po2 kernels whose per-channel scales are ALL far from 1, with a bias wider than the scaled products:
+  # the bias is not scaled, so the fused accumulator must add it AFTER the shift (integer bits of the bias survive a
+  # small scale, fraction bits of the bias survive a large scale)
+  for fam in fams:
+    specs.append(dict(stream="autopo2_bias", family=fam, pre=[None, "relu", "bits"][int(rng.integers(0, 3))],
+                      layers=[dict(w="auto_po2_small", b="wide_int", act=None, act_mode=None, dm=1)]))
+    specs.append(dict(stream="autopo2_bias", family=fam, pre=[None, "relu", "bits"][int(rng.integers(0, 3))],
+                      layers=[dict(w="auto_po2_large", b="wide_frac", act=None, act_mode=None, dm=1)]))
+  # po2 kernels / activations with a non-power-of-two max_value; aimed: every weight at the top power of two,
+  # all-max inputs, term count a power of two and not — the reported multiplier / accumulator must hold the sum
+  for i, n_in in enumerate((1, 2, 3, 4)):
+    specs.append(dict(stream="po2_mv_top", family="dense", pre=None, n_in=n_in,
+                      layers=[dict(w="po2_mv", b=["none", "fixed"][i % 2], act=None, act_mode=None, units=2,
+                                   raw="allmax")]))
+  for fam in fams:
+    specs.append(dict(stream="po2_mv", family=fam, pre=[None, "relu", "bits"][int(rng.integers(0, 3))],
+                      layers=[dict(w="po2_mv", b=biases[int(rng.integers(0, 3))], act=None, act_mode=None)]))
+  for pre in ("po2_mv", "relu_po2_mv"):
+    for wk in ("fixed", "po2_mv"):
+      specs.append(dict(stream="po2_mv_act", family=fams[int(rng.integers(0, 4))], pre=pre,
+                        layers=[dict(w=wk, b=biases[int(rng.integers(0, 3))], act=None, act_mode=None)]))
   # estimator regression (repaired loop bound): depthwise kernels with several input channels AND a depth
   # multiplier > 1 and a per-channel bias — output channel c*dm + m must be paired with k[:, :, c, m] and b[c*dm + m]
   for dm in (2, 3):
@@ -215,7 +254,7 @@ def lattice(bits, integer, signed):
   return lo, hi, step
 
 
-def raw_weights(rng, spec, shape, mode):
+def raw_weights(rng, spec, shape, mode, wkind=None):
   """raw (pre-quantization) kernel: lattice points incl. both saturation ends, as short dyadics"""
   name, kw = spec
   n_out = shape[-1]
@@ -231,7 +270,8 @@ def raw_weights(rng, spec, shape, mode):
       codes = np.where(ext < 0.15, lo, np.where(ext > 0.85, hi, codes))
     w = codes * step
     if kw.get("alpha", None) is None:       # auto_po2: spread the channels over several scales
-      sc = 2.0 ** rng.integers(-3, 3, size=n_out)
+      lo_e, hi_e = {"auto_po2_small": (-8, -5), "auto_po2_large": (3, 6)}.get(wkind, (-3, 3))
+      sc = 2.0 ** rng.integers(lo_e, hi_e, size=n_out)
       w = w * sc.reshape((1,) * (len(shape) - 1) + (n_out,))
     return w.astype(np.float32)
   if name in ("ternary", "binary"):
@@ -241,6 +281,8 @@ def raw_weights(rng, spec, shape, mode):
       w = w * sc.reshape((1,) * (len(shape) - 1) + (n_out,))
     return w.astype(np.float32)
   if name == "quantized_po2":
+    if mode == "allmax":                    # every weight saturates at the quantizer's top power of two
+      return np.full(shape, 64.0, dtype=np.float32)
     e = rng.integers(-5, 5, size=shape)
     s = rng.choice(np.array([-1.0, 1.0]), size=shape)
     w = s * 2.0 ** e
@@ -353,7 +395,7 @@ def build(rng, spec, idx):
       continue
     lyr = it["layer"]
     ws = lyr.get_weights()
-    new = [raw_weights(rng, it["wspec"], ws[0].shape, it["raw"])]
+    new = [raw_weights(rng, it["wspec"], ws[0].shape, it["raw"], it["wkind"])]
     if it["bspec"] is not None:
       new.append(raw_bias(rng, it["bspec"], ws[1].shape[0]))
     if it["set_w"] is not None:
@@ -492,7 +534,9 @@ def run(run: core.Run, tier: str):
       "models: grid of (weight kind x preceding activation kind) single dense/conv1d/conv2d/depthwise layers "
       "with none/fixed/po2 bias, aimed most-negative cases with N=1..4 terms, default-alpha ternary/binary "
       "kernels, tanh / po2(max_value=1) activations, Flatten after tanh / ulaw / bernoulli / stochastic_binary, "
-      "random 2-layer chains with "
+      "auto_po2 kernels with all scales << 1 / >> 1 under a bias wider than the scaled products, po2 kernels / "
+      "activations with non-power-of-two max_value (1.5, 3, 5, 6; aimed: all weights at the top power of two), "
+      "depthwise estimator cases with depth multiplier > 1, random 2-layer chains with "
       "layer.activation or separate QActivation; inputs: all-max, all-min, sign-aligned and anti-aligned with "
       "each output channel's effective kernel, random lattice points; non-trivial = distinct (stream, family, "
       "weight/bias/activation quantizers, kernel shape); every tensor value is judged by Lean Val on the type "
@@ -885,7 +929,7 @@ def run(run: core.Run, tier: str):
   lines, meta = [], []
   xs = np.array([0.0, 1e-30, 1e-9, 2.0 ** -20, 1e-3, 0.3, 1.0, 3.0, 100.0, 2.0 ** 20, -1e-30, -0.3, -2.0 ** 20], np.float32)
   for bits in (2, 3, 4, 5):
-    for mv in (None, 0.25, 0.5, 1, 2, 4, 8):
+    for mv in (None, 0.25, 0.5, 1, 2, 4, 8, 1.5, 3, 5, 6):
       for relu in (False, True):
         q = (Q.quantized_relu_po2 if relu else Q.quantized_po2)(bits, mv)
         y = q(tf.constant(xs)).numpy().astype(np.float64)
